@@ -77,6 +77,8 @@ InDomain(a) ==
     [] a.op = "catch" \/ (a.op = "prefetch" /\ a.cfe # "none") ->
          /\ InDomain(a.in)
          /\ LET b == Build(a.in) IN b.ok => CatchInputClean(b.obj)
+    \* the function of apply() is an operation of the catalogue: look inside
+    [] a.op = "apply" -> InDomain(WithIn(a.ag, a.in))
     [] OTHER -> InDomain(a.in)
 
 (***************************************************************************)
@@ -183,6 +185,7 @@ RECURSIVE HasFault(_)
 HasFault(a) ==
   CASE a.op \in {"list", "dict"} -> FALSE
     [] a.op \in {"fmap", "catch"} -> TRUE
+    [] a.op = "apply" -> HasFault(WithIn(a.ag, a.in))
     [] a.op = "prefetch" -> a.cfe # "none" \/ HasFault(a.in)
     [] a.op \in {"concat", "intersperse", "zip", "keyzip"} -> HasFault(a.in) \/ HasFault(a.in2)
     [] OTHER -> HasFault(a.in)
